@@ -133,10 +133,10 @@ PROPS = {
     ),
     "C11": dict(
         level="exploration",
-        rule="rapid: (a) quiet tree state machine (all six attach kinds + monitors, depth <= 4) with 'close any node' as an operation, closed-set and survivor oracles after every operation; (b) one close per case at a generated moment {before the root is ready (first list gated), mid-stream with traffic in flight, during a Refilter issued from another goroutine, during a gated relist, quiet} by a generated mechanism {Close of any node; root: context cancel, fatal list error of 5 kinds}, then further traffic/Subscribe/Refilter on the survivors. Oracle: closed set == subtree of the closed node (Done closed, Events closed after buffered events); every other node has Done/Events open, converges at the next barrier with an exact strict mirror, accepts Subscribe and Refilter, receives fresh events; root closes: everything done and no library goroutine left. Non-trivial = the closed node is internal (has descendants) and has a live sibling with traffic after the close (or is the root); distinct = hash of history.",
+        rule="rapid: (a) quiet tree state machine (all six attach kinds + monitors, depth <= 4) with 'close any node' as an operation, closed-set and survivor oracles after every operation; (b) one close per case at a generated moment {before the root is ready (first list gated), mid-stream with traffic in flight, during a Refilter issued from another goroutine, during a gated relist, quiet} by a generated mechanism {Close of any node; root: context cancel, fatal list error of 5 kinds}, then further traffic/Subscribe/Refilter on the survivors. Oracle: closed set == subtree of the closed node (Done closed, Events closed after buffered events); every other node has Done/Events open, converges at the next barrier with an exact strict mirror, accepts Subscribe and Refilter, receives fresh events; root closes: everything done and no library goroutine left; (c) the shutdown trigger (cancel, Close, several Closes, both) lands while the controller is busy - its own filter blocks on a harness channel while the cache applies the k-th list (k = 1..3, the watch hanging) or a watch event - optionally after every other goroutine has reacted and parked; then the filter returns: Done() of the controller and of every descendant closes, every Events() channel is closed, Close() returns, no goroutine is left. Non-trivial = the closed node is internal (has descendants) and has a live sibling with traffic after the close (or is the root); distinct = hash of history.",
         assumptions=["joins as tree nodes are exercised by C09's close oracle, not here", "interleavings are perturbed, not enumerated"],
-        quick=[J("TestC11_Machine", checks=500, shards=4), J("TestC11_Moments", checks=500, shards=6, procs=[2, 4, 8, 16])],
-        thorough=[J("TestC11_Machine", checks=15000, shards=8, timeout=2400), J("TestC11_Moments", checks=20000, shards=8, procs=[1, 2, 4, 16], timeout=2400)],
+        quick=[J("TestC11_Machine", checks=500, shards=4), J("TestC11_Moments", checks=500, shards=6, procs=[2, 4, 8, 16]), J("TestC11_ShutdownWhileApplying", checks=300, shards=4, procs=[2, 4, 8, 16])],
+        thorough=[J("TestC11_Machine", checks=15000, shards=8, timeout=2400), J("TestC11_Moments", checks=20000, shards=8, procs=[1, 2, 4, 16], timeout=2400), J("TestC11_ShutdownWhileApplying", checks=20000, shards=8, procs=[1, 2, 4, 16], timeout=2400)],
     ),
     "C10": dict(
         level="exploration",
